@@ -94,23 +94,54 @@ def anti_starvation(ctx):
             load = [d for d in ds if d not in dec]
             if not ob.need(len(load) == 1 and len(dec) == 1, "nphases=%d: time-out counter %s does not match the load/decrement template" % (nph, key(cnt))):
                 continue
-            en = [a for a, p in v.guard_lits(load[0], False) if not p]
-            if not ob.need(len(en) == 1, "counter load not guarded by ~enable"):
-                continue
-            enk = key(en[0])
+            # the counter RUNS when it is not being reloaded.  Necessary: in state `st`, whenever the other direction is waiting, it runs (then it expires
+            # after `bound` cycles and forces the turnaround); in the opposite mode state it is reloaded (so the budget starts afresh).
+            def in_state(t_, st_):
+                """t_ with every FSM-driven signal replaced by the OR of the conditions under which state st_ asserts it"""
+                if isinstance(t_, Op):
+                    return Op(t_.op, tuple(in_state(x_, st_) for x_ in t_.args))
+                if isinstance(t_, (Obj, Sym)):
+                    dr = [l_ for l_ in M.v.drivers(t_) if l_.fsm is not None]
+                    if dr:
+                        r_ = Const(0)
+                        for l_ in v.asserted(v.fsm_leaves(f, st_), t_):
+                            c_ = Const(1)
+                            for x_ in leaf_cond(l_):
+                                c_ = Op("&", (c_, x_))
+                            r_ = Op("|", (r_, c_))
+                        return r_
+                    d_ = v.single_comb_def(t_)
+                    if d_ is not None and not isinstance(d_, Const):
+                        return in_state(d_, st_)
+                return t_
+            reload_c = Const(1)
+            for c_, p_ in load[0].guards:
+                reload_c = Op("&", (reload_c, c_ if p_ else Op("~", (c_,))))
+            run = Op("~", (reload_c,))
             bound = Op("+", (load[0].value, Const(1)))
-            ob.instance("nphases=%d %s time-out" % (nph, st), {"counter": key(cnt), "enable": enk, "bound_cycles": key(bound), "configured": tname})
+            other_t = None
+            for b_ in ("bm0", "bm1"):
+                x_ = Op("&", (Sym("%s.cmd.valid" % b_), Sym("%s.cmd.%s" % (b_, "is_write" if mine == RD else "is_read"))))
+                other_t = x_ if other_t is None else Op("|", (other_t, x_))
+            run_here = in_state(run, st)
+            okrun, cex = implies([other_t], [run_here])
+            other_state = M.write_state if st == M.read_state else M.read_state
+            run_there = in_state(run, other_state)
+            stops, cex2 = implies([run_there], [Const(0)])
+            ob.instance("nphases=%d %s time-out" % (nph, st), {"counter": key(cnt), "runs in this state when": key(run_here)[:200], "bound_cycles": key(bound), "configured": tname,
+                                                               "runs in the opposite mode when": key(run_there)[:120]})
             if not lin_eq(bound, Sym(tname)):
                 ob.refute("timeout-bound:%s:%d" % (st, nph), "time-out of state %s fires after %s cycles, configured %s" % (st, key(bound), tname), load[0].loc)
-            ens = [l for l in M.v.drivers(enk) if is1(l.value)]
-            mine_en = [l for l in ens if l.state == st and not l.guards]
-            if not mine_en:
-                ob.refute("timeout-not-enabled:%s:%d" % (st, nph), "the time-out counter of state %s is not enabled unconditionally in that state for "
-                          "nphases=%d (drivers: %s): it never expires, so the other direction can be starved" % (st, nph, [str(l) for l in ens]),
-                          (ens[0].loc if ens else f.acts[st][0].loc))
-            wrong = [l for l in ens if l.state != st]
-            if wrong:
-                ob.refute("timeout-enabled-elsewhere:%s:%d" % (st, nph), "the time-out counter of %s also runs in state %s" % (st, wrong[0].state), wrong[0].loc)
+            if okrun is None or stops is None:
+                ob.unknown("nphases=%d %s: run condition of the time-out counter too large to enumerate" % (nph, st))
+                continue
+            if okrun is False:
+                ob.refute("timeout-not-enabled:%s:%d" % (st, nph), "in state %s (nphases=%d) the time-out counter does not run although the other direction is waiting "
+                          "(run condition %s is false for %s): it never expires, so the other direction can be starved" %
+                          (st, nph, key(run_here)[:160], sorted(k_ for k_, x_ in cex.items() if x_)), load[0].loc)
+            if stops is False:
+                ob.refute("timeout-enabled-elsewhere:%s:%d" % (st, nph), "the time-out counter of %s also runs in state %s (under %s): its budget is used up before the mode "
+                          "is entered" % (st, other_state, sorted(k_ for k_, x_ in cex2.items() if x_)), load[0].loc)
 
 
 def arbiters(ctx):
